@@ -467,7 +467,7 @@ mutual
               (i.1 == 0 && fr.edge == 1) || (i.1 == 1 && fr.edge == 2) || (i.1 == 4 && fr.edge == 100 + i.2.1))
             match hit with
             | some i => g i.2.2
-            | none => throw (.unsupported "phi without incoming for the edge taken")
+            | none => throw (.stuck "phi without incoming for the edge taken")
         | .other n => throw (.unsupported ("expression " ++ n))
         | _ => g h
 end
